@@ -97,6 +97,36 @@ Theorem c01_first_pass_creates_every_instance : forall creatable legal is st ws 
 Proof. exact P21Pass1_Proofs.read_data1_wellformed. Qed.
 Print Assumptions c01_first_pass_creates_every_instance.
 
+(* ... and so is every well-formed externally mapped instance  #n = ( PART_A(...) PART_B(...) );  whose combination of
+   parts the schema allows, under its name and with the names of its parts in file order, mixed with simple instances in
+   any order (CreateSubSuperInstance: the records of the parts are stepped over with their nested parentheses and strings) *)
+Theorem c01_first_pass_creates_complex_instances_too : forall creatable legal is st ws x,
+  is <> [] ->
+  P21Pass1.ginsts_ok is (P21Sep.seps_text st ++ [69; 78; 68; 83; 69; 67]%N ++ ws ++ P21Sep.SEMI :: x) = true ->
+  P21Sep.seps_ok st = true -> forallb is_space ws = true ->
+  forallb (P21Pass1.inst_accepted creatable legal) is = true ->
+  NoDup (map P21Pass1.inst_id is) ->
+  P21Pass1.read_data1 creatable legal
+    (P21Pass1_Proofs.gsection_text is (P21Sep.seps_text st ++ [69; 78; 68; 83; 69; 67]%N ++ ws ++ P21Sep.SEMI :: x))
+  = (map P21Pass1.inst_summary is, P21Pass1.Done).
+Proof. exact P21Pass1_Proofs.read_data1_mixed. Qed.
+Print Assumptions c01_first_pass_creates_complex_instances_too.
+
+(* the hypotheses are met by  #7=(A(1,('x)',$))B ());/**/#8=C(#7);  followed by ENDSEC; *)
+Example c01_first_pass_example :
+  let pa := P21Pass1.mkCP [65%N] [] [P21Pass1.BChr 49%N; P21Pass1.BChr 44%N; P21Pass1.BOpen; P21Pass1.BStr [P21Str.Plain 120%N; P21Str.Plain 41%N];
+                                       P21Pass1.BChr 44%N; P21Pass1.BChr 36%N; P21Pass1.BClose; P21Pass1.BClose] [] in
+  let pb := P21Pass1.mkCP [66%N] [32%N] [P21Pass1.BClose] [] in
+  let c := P21Pass1.mkCI ([], []) ([], []) [55%N] ([], []) ([], []) [] [pa; pb] [] in
+  let s := P21Pass1.mkSI ([([], [])], []) ([], []) [56%N] ([], []) ([], []) [67%N]
+             [P21Skip.SChr 40%N; P21Skip.SChr 35%N; P21Skip.SChr 55%N; P21Skip.SChr 41%N] in
+  let is := [P21Pass1.IComplex c; P21Pass1.ISimple s] in
+  let tail := [69; 78; 68; 83; 69; 67; 59]%N in
+  P21Pass1.ginsts_ok is tail = true /\
+  P21Pass1.read_data1 (fun _ => true) (fun _ => Some true) (P21Pass1_Proofs.gsection_text is tail)
+  = ([P21Pass1.CComplex 7 [[65%N]; [66%N]]; P21Pass1.CSimple 8 [67%N]], P21Pass1.Done).
+Proof. vm_compute. split; reflexivity. Qed.
+
 Example c01_skip_example :
   let ts := [P21Skip.SChr 65%N; P21Skip.SChr 40%N; P21Skip.SStr [P21Str.Plain 120%N; P21Str.Plain 59%N; P21Str.Apos; P21Str.Page 39%N];
              P21Skip.SChr 44%N; P21Skip.SCmt [32; 59; 32; 39; 42; 32]%N; P21Skip.SChr 32%N; P21Skip.SChr 35%N; P21Skip.SChr 49%N; P21Skip.SChr 41%N; P21Skip.SChr 32%N] in
